@@ -214,7 +214,7 @@ static void sink(const unsigned char *s, size_t n, void *arg) {
         case EEAV_DOMAIN_NOT_FQDN: if (!t) bad = "TLD checking is off"; else if (memchr(DD, '.', ddn) && !(ddn && DD[ddn - 1] == '.' && !memchr(DD, '.', ddn - 1))) bad = "domain has a dot"; else if (ref_special((const char *)DD, ddn)) bad = "domain is a reserved name"; break;
         case EEAV_IPADDR_INVALID: if (!(dn && D[0] == '[')) bad = "domain does not start with '['"; else if (dv == R_ACC) bad = "the literal is valid"; break;
         case EEAV_IPADDR_BRACKET_UNPAIR: if (!(dn && D[0] == '[') || memchr(D, ']', dn)) bad = "there is a closing bracket (or no opening one)"; break;
-        case EEAV_TLD_INVALID: { if (!t) { bad = "TLD checking is off"; break; } size_t i = ddn; while (i > 0 && DD[i - 1] != '.') i--; if (rt_lookup(&RT_PUNY, (const char *)DD + i, ddn - i)) bad = "the last label is in the table"; } break;
+        case EEAV_TLD_INVALID: { if (!t) { bad = "TLD checking is off"; break; } if (!memchr(DD, '.', ddn)) { bad = "the domain has a single label (not-FQDN is the true reason)"; break; } size_t i = ddn; while (i > 0 && DD[i - 1] != '.') i--; if (rt_lookup(&RT_PUNY, (const char *)DD + i, ddn - i)) bad = "the last label is in the table"; } break;
         default:
             if (err >= EEAV_TLD_NOT_ASSIGNED && err <= EEAV_TLD_RETIRED) {
                 int cls = err - EEAV_TLD_NOT_ASSIGNED + TLD_TYPE_NOT_ASSIGNED;
